@@ -4,6 +4,7 @@ package simpledb
 
 import (
 	"errors"
+	"math"
 	"strings"
 
 	"github.com/thomasjungblut/go-sstables/sstables"
@@ -233,4 +234,25 @@ func (h *vDB) runPendingNative() {
 	if !vrt.Symbolic() {
 		vrt.WaitGoroutineIdle("simpledb.flushMemstoreContinuously")
 	}
+}
+
+// chooseMaxSize picks the compaction size limit relative to the sizes of the live tables: 0, each table's size,
+// each size + 1, or no limit. These are all the distinct outcomes of "TotalBytes < limit" over the tables, and -
+// unlike a raw number - the choice means the same thing natively, where the real protobuf encoding gives the
+// tables other sizes than the stand-in codec.
+func (h *vDB) chooseMaxSize(key string) uint64 {
+	h.db.sstableManager.managerLock.RLock()
+	var sizes []uint64
+	for _, r := range h.db.sstableManager.allSSTableReaders {
+		sizes = append(sizes, r.MetaData().TotalBytes)
+	}
+	h.db.sstableManager.managerLock.RUnlock()
+	c := vrt.Choose(key, 2*len(sizes)+2)
+	switch {
+	case c == 0:
+		return 0
+	case c == 2*len(sizes)+1:
+		return math.MaxUint64
+	}
+	return sizes[(c-1)/2] + uint64((c-1)%2)
 }
